@@ -25,6 +25,10 @@ const (
 	KCorrupt      = "corrupt"
 	KExtra        = "extra"
 	KWrongTypeAll = "wrong-type-all"
+	// KLagPush (lag phase only): the honest answer plus the TRUE filters of
+	// the blocks above the client's filter-header tip, which the client has
+	// no committed header to verify against.
+	KLagPush = "lag-push"
 )
 
 // Corruptions of one entry.
@@ -130,7 +134,12 @@ type Plan struct {
 	Unsolicited  bool
 	RestartAfter int // restart the client on the same data dir after this round (-1: never)
 	Rounds       []Round
-	BudgetS      float64 // worst-case seconds of forced worker timeouts planned
+	// Lag > 0: final phase in which the chain grows by Lag blocks whose
+	// headers the peers serve while withholding their filter headers (block
+	// header tip above filter header tip), then LagCalls ask for those blocks.
+	Lag      int    `json:",omitempty"`
+	LagCalls []Call `json:",omitempty"`
+	BudgetS  float64 // worst-case seconds of forced worker timeouts planned
 }
 
 // Targets returns every planned target height.
@@ -637,6 +646,22 @@ func MakePlan(seed int64, k int, quick bool) Plan {
 			p.Rounds = append(p.Rounds, rd)
 			pl.prev = append(pl.prev, rd.Calls...)
 			pl.cover(rd)
+		}
+	}
+	if k%4 == 2 {
+		// Never more than 2: three blocks of lag make prepareCFiltersQuery
+		// ask the header store for a ~4 GB buffer (uint32 wrap-around), which
+		// the call survives with an error but 16 parallel children may not.
+		p.Lag = 1 + r.Intn(2)
+		modes := []string{"none", "fwd", "rev"}
+		r.Shuffle(3, func(i, j int) { modes[i], modes[j] = modes[j], modes[i] })
+		for i := 0; i < 2+r.Intn(2); i++ {
+			c := Call{Height: int32(p.ChainLen + 1 + r.Intn(p.Lag)), Batch: modes[i], Retries: 1, Boundary: "above-filter-tip"}
+			if c.Batch != "none" && r.Intn(2) == 0 {
+				c.Cap = int64(2 + r.Intn(40))
+			}
+			p.LagCalls = append(p.LagCalls, c)
+			p.BudgetS += 2
 		}
 	}
 	return p
